@@ -614,23 +614,19 @@ func (server *Server) registerCoreExecutors() {
 		}
 
 		members := []*ZSetMember{}
-		member, err := args.NextString()
-		if err != nil {
-			err = newMissingArgumentError(cmd, "member", err)
-		}
-		for err == nil {
+		for {
+			member, err := nextStringArgument(cmd, "member", args)
+			if err != nil {
+				return nil, err
+			}
 			members = append(members, &ZSetMember{Score: score, Member: member})
 			score, err = nextScoreArgument(cmd, "score", args)
 			if err != nil {
-				break
+				if errors.Is(err, proto.ErrEOM) {
+					break
+				}
+				return nil, err
 			}
-			member, err = nextStringArgument(cmd, "member", args)
-			if err != nil {
-				break
-			}
-		}
-		if !errors.Is(err, proto.ErrEOM) {
-			return nil, err
 		}
 
 		return server.userCommandHandler.ZAdd(conn, key, members, opt)
